@@ -221,6 +221,7 @@ class Engine:
                 self.by_last.setdefault(n.split('::')[-1], []).append(n)
         self.stats = {'steps': 0, 'forks': 0, 'queries': 0, 'solver_s': 0.0, 'havoc': {}, 'fns': {}, 'models': {}, 'bound_hits': 0}
         self.resolve_cache = {}
+        self.drop_types = set()     # type names whose user Drop impl is executed at `drop(..)` terminators
         self.const_params = {}      # const-generic parameters bound by the obligation, e.g. {'PURE_LOCK': BoolVal(True)}
         from . import models
         self.models = models
@@ -458,6 +459,15 @@ class Engine:
             return z3.BitVecVal(ord(m.group(1)), 32)
         if c in self.const_params:
             return self.const_params[c]
+        mp = re.search(r'::promoted\[(\d+)\]$', c)
+        if mp and st.frames:
+            name = f'{st.frame().fn.name}::promoted[{mp.group(1)}]'
+            if name in self.fns:
+                return self.eval_promoted(st, name)
+        if re.match(r'^[\w:]+::[A-Z][A-Z0-9_]+$', c) or re.match(r'^[A-Z][A-Z0-9_]+$', c):
+            v = self.named_const(c)
+            if v is not None:
+                return v
         r = self.models.const_model(self, st, c)
         if r is not None:
             return r
@@ -475,6 +485,44 @@ class Engine:
         if k == 'copy' and isinstance(v, (Obj, tuple)):
             return self.copy_val(v)
         return v
+
+    def eval_promoted(self, st, name):
+        """promoted constants are straight-line bodies: evaluate bb0 in a temporary frame; a reference to one of its locals is re-homed on the heap"""
+        pf = self.fns[name].parse()
+        tmp = Frame(pf, None, None); st.frames.append(tmp)
+        try:
+            blk = pf.blocks['bb0']
+            if mir.parse_term(blk[-1])[0] != 'return':
+                raise MirError('promoted constant with control flow: ' + name)
+            for s_ in blk[:-1]:
+                self.stmt(st, s_, tmp)
+            v = tmp.locals.get('_0')
+            if isinstance(v, Ref) and v.loc[0] == 'local' and v.loc[1] == tmp.id:
+                h = Obj('promoted', kind='cell'); h.fields[('*', 0)] = tmp.locals[v.loc[2]]
+                v = Ref(('field', h, ('*', 0, pf.types.get(v.loc[2], '?'))))
+            return v
+        finally:
+            st.frames.pop()
+
+    def named_const(self, path):
+        """integer constants of the workspace, read from the source (`const NAME: uN = <literal>;`, unique name)"""
+        name = path.split('::')[-1]
+        cache = self.__dict__.setdefault('_const_cache', {})
+        if name not in cache:
+            import subprocess
+            from vlib import snap
+            r = subprocess.run(['grep', '-rhoE', rf'const {name}: (u8|u16|u32|u64|u128|usize|i32|i64|i128) = [0-9_]+( \* [0-9_]+)*;', snap.REPO + '/crates', '--include=*.rs'],
+                               capture_output=True, text=True)
+            found = set(r.stdout.strip().split('\n')) - {''}
+            val = None
+            if len(found) == 1:
+                m = re.match(r'const \w+: (\w+) = (.+);', found.pop())
+                n = 1
+                for part in m.group(2).split('*'):
+                    n *= int(part.strip().replace('_', ''))
+                val = z3.BitVecVal(n, INT_TY[m.group(1)])
+            cache[name] = val
+        return cache[name]
 
     # ---------------- rvalues
     def to_bv(self, v):
@@ -761,6 +809,8 @@ class Engine:
                         c3.append(n)
                 if len(c3) == 1:
                     return c3[0]
+                if not c3 and targ:
+                    return None          # no impl for this trait argument in the dumps: a foreign impl
                 raise MirError(f'ambiguous impl for {callee}: {cands[:4]}')
             # provided trait method
             cands = [n for n in by_last.get(meth, []) if '<impl at' not in n and suffix_match(n, trait + '::' + meth)]
@@ -787,6 +837,12 @@ class Engine:
                 c2 = [n for n in cands if len(self.fns[n].parse().params) == nargs]
                 if len(c2) == 1:
                     return c2[0]
+                # same type name in several modules: the impl lives in the module the (trimmed) type path names
+                modpath = '::'.join(segs[:-2])
+                pre = lambda n: (n[len(only_prefix):] if only_prefix and n.startswith(only_prefix) else n).split('<impl at')[0].rstrip(':')
+                c3 = [n for n in cands if pre(n) == modpath or (modpath and pre(n).endswith('::' + modpath))]
+                if len(c3) == 1:
+                    return c3[0]
                 raise MirError(f'ambiguous inherent method {callee}: {cands[:4]}')
         return None
 
@@ -823,6 +879,35 @@ class Engine:
             return None
         o = Obj(m.group(1), kind='closure'); o.attrs['span'] = m.group(1); o.attrs['parent'] = parent; o.attrs['ckind'] = 'closure'
         return o
+
+    def drop_target(self, st, place_text):
+        """user Drop impl to run for `drop(place)` (only for the types the obligation opted into via ex.drop_types)"""
+        try:
+            p = mir.parse_place(place_text)
+            loc, ty = self.resolve(st, p)
+            fr = st.frame()
+            if loc[0] == 'local' and loc[2] not in st.frame(loc[1]).locals:
+                return None
+            v = self.read(st, loc, ty)
+        except MirError:
+            return None
+        if not isinstance(v, Obj) or v.kind is not None or v.attrs.get('dropped'):
+            return None
+        tyname = type_head(v.ty or ty).split('::')[-1]
+        if tyname not in self.drop_types:
+            return None
+        if not hasattr(self, '_drop_impls'):
+            self._drop_impls = {}
+            for n in self.by_last.get('drop', []):
+                if '<impl at' in n:
+                    tr, t = self.impl_self(n)
+                    if tr == 'Drop':
+                        self._drop_impls[t] = n
+        fname = self._drop_impls.get(tyname)
+        if not fname:
+            return None
+        v.attrs['dropped'] = True
+        return fname, Ref(loc)
 
     # ---------------- calls
     def push(self, st, fname, args, dest, nxt, cont=None, fn=None):
@@ -988,6 +1073,13 @@ class Engine:
             if k == 'goto':
                 fr.bb = term[1]; continue
             if k == 'drop':
+                if self.drop_types:
+                    tgt = self.drop_target(st, term[1])
+                    if tgt is not None:
+                        fname, ref = tgt
+                        fr.bb = term[2]
+                        self.push(st, fname, [ref], ('local', '_verif_drop_unit'), term[2])
+                        continue
                 fr.bb = term[2]; continue
             if k == 'return':
                 rv = fr.locals.get('_0', ())
